@@ -2,8 +2,8 @@ package main
 
 import (
 	"bufio"
-	"net"
 	"io"
+	"net"
 	"net/http"
 )
 
